@@ -165,6 +165,7 @@ class World:
         self.tasks: dict[str, asyncio.Task[Any]] = {}
         self.capture = LogCapture()
         self.uid = 10_000
+        self.live: dict[str, tuple[int, set[str]]] = {}  # block name -> (task id, supplied types) while its body runs
         self.tg_enabled = True
         self.probe_defaults = True
 
@@ -242,6 +243,10 @@ def take_probe(W: World, pid: Any, rng: random.Random | None = None) -> dict[str
         except BaseException as exc:  # noqa: BLE001
             rec["released_during"] = ("spawn-error", repr(exc))
         obs["tg"] = rec
+    me = id(asyncio.current_task())
+    mine = set().union(*[ts for (tid, ts) in W.live.values() if tid == me] or [set()])
+    theirs = set().union(*[ts for (tid, ts) in W.live.values() if tid != me] or [set()])
+    obs["conflict"] = bool(mine & theirs)
     W.probes[pid] = obs
     return obs
 
@@ -313,6 +318,7 @@ async def run_block(W: World, block: dict[str, Any], rng: random.Random | None) 
 
     async def body() -> None:
         W.block_phase[name] = "body"
+        W.live[name] = (id(asyncio.current_task()), {t for t, _ in block["supply"]})
         await run_steps(W, block["body"], rng)
         ex = (block.get("exit") or {}).get("kind", "return")
         if ex != "return":
@@ -321,6 +327,7 @@ async def run_block(W: World, block: dict[str, Any], rng: random.Random | None) 
             raise exc
 
     def leaving() -> None:
+        W.live.pop(name, None)
         W.block_phase[name] = "exiting"
         W.block_stack_exiting.append(name)
 
